@@ -19,6 +19,9 @@ import (
 //   name   : registered and unregistered names - ActivationTypeFromName
 //   scalar : an exactly representable activation at the dyadic input xn*2^xe must return exactly yn*2^ye
 //   module : a module reducer on the integer vector v scaled by 2^s must return exactly yn*2^ye
+//   factory: a registration on a private factory must not be visible in any other factory (factory.go); these cases
+//            are run BEFORE all others and once more AFTER them, so that a default registry damaged through a private
+//            factory is also met by the ordinary cases
 // The specification's names are bound to the code through the exported Go constants below, so a name registered
 // for the wrong function or constant is seen as a wrong value.  A difference between the specification's registry
 // table and the code's that does not break the property statement (a new registration, a renamed one) is reported as
@@ -69,6 +72,10 @@ type activCase struct {
 	Op string  `json:"op"`
 	V  []int64 `json:"v"`
 	S  int     `json:"s"`
+	// factory: one extra registration on a private factory, and what an untouched / the customised registry answers
+	G         *extraReg    `json:"g"`
+	Untouched *registryObs `json:"untouched"`
+	Private   *registryObs `json:"private"`
 }
 
 func init() { commands["replay-activ"] = replayActiv }
@@ -392,6 +399,8 @@ func replayActiv(args []string) int {
 	rep := &vhu.Report{Command: "replay-activ", Extra: map[string]interface{}{}}
 	// first pass: the specification's registered names (needed to classify derived spellings)
 	specNames := map[string]bool{}
+	extraNames := map[string]bool{}
+	var factoryCases [][]byte
 	err := vhu.ReadNDJSON(*cases, func(line []byte) error {
 		var c activCase
 		if err := json.Unmarshal(line, &c); err != nil {
@@ -402,6 +411,12 @@ func replayActiv(args []string) int {
 		}
 		if c.Kind == "bytype" && c.Named {
 			specNames[c.Name] = true
+		}
+		if c.Kind == "factory" {
+			factoryCases = append(factoryCases, append([]byte(nil), line...))
+			if c.G != nil {
+				extraNames[c.G.Name] = true
+			}
 		}
 		return nil
 	})
@@ -415,10 +430,60 @@ func replayActiv(args []string) int {
 	drift := map[string]bool{}
 	kinds := map[string]int{}
 	sigs := map[string]int{}
+	// names every factory is asked about in the factory cases: the specification's, the extra ones, a few unknown
+	var askNames []string
+	for n := range specNames {
+		askNames = append(askNames, n)
+	}
+	for n := range extraNames {
+		if !specNames[n] {
+			askNames = append(askNames, n)
+		}
+	}
+	askNames = append(askNames, "", "UnknownActivation", "sigmoidplainactivation")
+	sort.Strings(askNames)
+	factoryPass := func(pass string) error {
+		for _, line := range factoryCases {
+			var c activCase
+			if err := json.Unmarshal(line, &c); err != nil {
+				return err
+			}
+			v := &verdict{}
+			if err := checkFactory(&c, askNames, v); err != nil {
+				return err
+			}
+			rep.Evaluations += v.evals
+			for _, d := range v.drift {
+				drift[d] = true
+			}
+			if pass == "before" {
+				rep.Cases++
+				kinds[c.Kind]++
+				if c.G.Type < 100 || specNames[c.G.Name] { // overrides an existing type code or takes an existing name
+					rep.Nontrivial++
+				}
+			}
+			if len(v.bad) > 0 {
+				sigs[factorySignature]++
+				if sigs[factorySignature] <= 12 {
+					rep.Fail(map[string]interface{}{"case": json.RawMessage(line), "signature": factorySignature,
+						"what": "(" + pass + " the other cases) " + strings.Join(v.bad, "; ")})
+				}
+			}
+		}
+		return nil
+	}
+	if err := factoryPass("before"); err != nil {
+		fmt.Println("vh_activ replay-activ:", err)
+		return 2
+	}
 	err = vhu.ReadNDJSON(*cases, func(line []byte) error {
 		var c activCase
 		if err := json.Unmarshal(line, &c); err != nil {
 			return err
+		}
+		if c.Kind == "factory" {
+			return nil
 		}
 		rep.Cases++
 		kinds[c.Kind]++
@@ -458,6 +523,9 @@ func replayActiv(args []string) int {
 		}
 		return nil
 	})
+	if err == nil {
+		err = factoryPass("after")
+	}
 	if err != nil {
 		fmt.Println("vh_activ replay-activ:", err)
 		return 2
